@@ -25,7 +25,7 @@ META = {
                  "scripts replayed on real connections; TLC trace validation with silent server steps",
 }
 
-LOGS_BEFORE_RAISE = False   # the code drops logs of a process() step that raises (see C08); the model follows the code
+LOGS_BEFORE_RAISE = True    # since 2c0e64a logs of a process() step that then raises are delivered before the error
 INVS = ["OwnResponse", "NotBroken", "ServerAlive", "NoOrphanWait", "Boundary", "ProbeAnswered"]
 
 
